@@ -707,6 +707,12 @@ func (m *LexModel) Instr(mc *Machine, st *State, in ssa.Instruction, ops []AV) {
 				e.KV["bad"] = "the line counter is set to " + val.String() + " instead of line+1"
 			}
 			cur := m.aliases(st, "cur")
+			if set, _ := m.solve(st, cur); len(cur) > 0 && len(set) == 0 {
+				// the facts this path assumed about the rune under the cursor contradict each other (it was taken to be
+				// '*' by one test and '\n' by the next): the path is infeasible and ends at the following advance
+				delete(st.Heap, "s.line")
+				return
+			}
 			switch {
 			case st.Mon["owed"] != "" && st.Mon["owed"] != "0":
 				n, _ := strconv.Atoi(st.Mon["owed"])
@@ -839,6 +845,7 @@ func (m *LexModel) LoadGlobal(mc *Machine, st *State, g *ssa.Global) ([]AV, bool
 // Explore runs fn (a method of *Scanner) from the given cursor knowledge.
 func (m *LexModel) Explore(fn *ssa.Function, end string) *Machine {
 	mc := NewMachine(m.p, m)
+	mc.ForkTables = true
 	m.Attach(mc)
 	params := []AV{Sym("s")}
 	mc.Start(fn, params, func(st *State) {
